@@ -719,3 +719,59 @@ Proof.
     assert (Hpk : t_penalty k = p) by congruence. rewrite Hpk in Hst.
     change (breach_status sc (set_w_cache t c) p) with (breach_status sc t p) in Hst. congruence.
 Qed.
+
+(* frame: the appointments table after the block is exactly the rows that were not dropped (in
+   particular every row whose locator is not in the block is untouched); users are untouched;
+   trackers of other locators are untouched; the only new trackers are made from breached rows;
+   every RPC of the listener concerns the decrypted penalty of a breached row. *)
+Theorem w_block_connected_frame sc t hash txs h t' :
+  Inv t ->
+  w_block_connected sc t (cache_block hash txs) h = Ok tt t' ->
+  db_apps t' = filter (survives_block sc t txs) (db_apps t) /\
+  db_users t' = db_users t /\ gk_users t' = gk_users t /\ cfg t' = cfg t /\ gk_height t' = gk_height t /\
+  r_index t' = r_index t /\ car_height t' = car_height t /\ reorged t' = reorged t /\ w_height t' = h /\
+  (forall k, In k (db_trks t) -> memN (t_loc k) txs = false -> In k (db_trks t')) /\
+  (forall k, In k (db_trks t') ->
+             In k (db_trks t) \/ exists a, In a (db_apps t) /\ made_from sc t (fun d => In d txs) k a) /\
+  (exists evs, rpc_log t' = evs ++ rpc_log t /\
+               forall e, In e evs -> exists a, In a (db_apps t) /\ In (a_loc a) txs /\
+                                               decrypt (a_blob a) (a_loc a) = Some (r_tx e)).
+Proof.
+  intros HI Hw. pose proof (inv_apps_nodup t HI) as Hnd.
+  destruct (w_block_connected_inner sc t hash txs h t' Hnd Hw)
+    as [c [inv [t2 [_ [E2 [Hall [Hinv [Happs [Htrks [Hrest Hh]]]]]]]]]].
+  pose proof (ext_core _ _ _ _ E2) as Hc. unfold same_core in Hc. cbn in Hc.
+  unfold same_but_rows in Hrest.
+  assert (Hin_inv : forall a, In a (db_apps t) -> In (app_uuid a) inv ->
+                              In (a_loc a) txs /\ row_invalid sc (set_w_cache t c) a).
+  { intros a Ha Hi. destruct (Hinv _ Hi) as [a' [Ha' [Hu [Hl Hri]]]].
+    rewrite (app_uuid_inj _ a a' Hnd Ha Ha' (eq_sym Hu)). split; assumption. }
+  split; [|repeat split; try (intuition congruence)].
+  - rewrite Happs. apply filter_ext_in. intros a Ha. unfold survives_block.
+    destruct (memN (a_loc a) txs) eqn:Em.
+    + apply memN_In in Em. specialize (Hall a Ha Em). unfold row_outcome in Hall.
+      specialize (Hin_inv a Ha). unfold row_invalid in Hin_inv.
+      destruct (decrypt (a_blob a) (a_loc a)) as [p|].
+      * change (breach_status sc (set_w_cache t c) p) with (breach_status sc t p) in *.
+        destruct Hall as [_ Hrej].
+        destruct (status_rejected (breach_status sc t p)) eqn:Er.
+        -- specialize (Hrej eq_refl). apply mem_uuid_In in Hrej. rewrite Hrej. reflexivity.
+        -- destruct (mem_uuid (app_uuid a) inv) eqn:Eu; [|reflexivity].
+           apply mem_uuid_In in Eu. destruct (Hin_inv Eu). discriminate.
+      * apply mem_uuid_In in Hall. rewrite Hall. reflexivity.
+    + destruct (mem_uuid (app_uuid a) inv) eqn:Eu; [|reflexivity].
+      apply mem_uuid_In in Eu. destruct (Hin_inv a Ha Eu) as [Hl _].
+      apply memN_In in Hl. congruence.
+  - intros k Hk Hm. rewrite Htrks. apply filter_In. split.
+    + destruct (ext_trks _ _ _ _ E2) as [new [Hnew _]]. rewrite Hnew. apply in_or_app. left. exact Hk.
+    + destruct (mem_uuid (trk_uuid k) inv) eqn:Eu; [|reflexivity].
+      apply mem_uuid_In in Eu. destruct (Hinv _ Eu) as [a [_ [Hu [Hl _]]]].
+      apply memN_In in Hl. assert (a_loc a = t_loc k) by (unfold app_uuid, trk_uuid in Hu; congruence). congruence.
+  - intros k Hk. rewrite Htrks in Hk. apply filter_In in Hk. destruct Hk as [Hk _].
+    destruct (ext_trks _ _ _ _ E2) as [new [Hnew Hmade]]. rewrite Hnew in Hk.
+    apply in_app_or in Hk. destruct Hk as [Hk|Hk]; [left; exact Hk|right].
+    destruct (Hmade k Hk) as [a [Ha Hm]]. exists a. split; [exact Ha|exact Hm].
+  - destruct (ext_log _ _ _ _ E2) as [evs [Hl Hj]]. exists evs. split.
+    + destruct Hrest as [_ [_ [_ [_ [_ [_ [_ [_ [_ Hlog]]]]]]]]]. rewrite <- Hlog. exact Hl.
+    + intros e He. destruct (Hj e He) as [a [Ha [Hd Hp]]]. exists a. repeat split; assumption.
+Qed.
